@@ -77,16 +77,29 @@ impl UpdateGenerator for MarkdownUpdateGenerator {
                     language,
                     config_lines,
                     comment_lines,
-                    code_lines: _,
+                    code_lines,
                 } => {
                     let config = if config_lines.is_empty() {
                         "".into()
                     } else {
                         format!(" {{{}}}", config_lines.join_newline().trim_start())
                     };
-                    let generated = outcomes[testcase_index]
-                        .generate_testcase()
-                        .with_context(|| format!("testcase number {}", testcase_index + 1))?;
+                    // a block without shell expression is not a testcase (the parser
+                    // yields none for it), so there is no outcome: keep it as it is
+                    let is_testcase = code_lines.iter().any(|(_, line)| line.starts_with("$ "));
+                    let generated = if is_testcase {
+                        let generated = outcomes
+                            .get(testcase_index)
+                            .with_context(|| format!("no outcome for testcase number {}", testcase_index + 1))?
+                            .generate_testcase()
+                            .with_context(|| format!("testcase number {}", testcase_index + 1))?;
+                        testcase_index += 1;
+                        generated
+                    } else if code_lines.is_empty() {
+                        "".to_string()
+                    } else {
+                        formatln!("{}", code_lines.join_newline())
+                    };
                     let backticks = "`".repeat(max_backtick_size(&generated) + 1);
                     updated.push_str(&formatln!("{}{}{}", &backticks, &language, &config));
                     for (_, line) in &comment_lines {
@@ -94,7 +107,6 @@ impl UpdateGenerator for MarkdownUpdateGenerator {
                     }
                     updated.push_str(&generated);
                     updated.push_str(&backticks.assure_newline());
-                    testcase_index += 1;
                 }
             }
         }
